@@ -148,6 +148,7 @@ type LatencyMetrics struct {
 	Min time.Duration `json:"min"`
 
 	estimator estimator
+	seen      bool
 }
 
 // Add adds the given latency to the latency metrics.
@@ -156,9 +157,11 @@ func (l *LatencyMetrics) Add(latency time.Duration) {
 	if l.Total += latency; latency > l.Max {
 		l.Max = latency
 	}
-	if latency < l.Min || l.Min == 0 {
+	if latency < l.Min || !l.seen {
+		// A zero Min is a legitimate observation, not "unset".
 		l.Min = latency
 	}
+	l.seen = true
 	l.estimator.Add(float64(latency))
 }
 
